@@ -161,6 +161,45 @@ def finhEffects (s : State) (n : Name) (now : Int) : List Prim :=
        | .park timer e' =>
          [Prim.timerDel n] ++ (if timer then [Prim.timerSet n] else []) ++ [Prim.waitAdd e'.prev n e'])
 
+/-! ### the finalize handler in two phases
+
+`finalizeHandler` does its work in two phases that are NOT one atomic step of the code: the
+decision (the cached state of the name is read without the file lock, `isFileReady` is evaluated,
+which may scan the receive log) and, only if the file is ready, `finalize`, which takes the file
+lock and checks state AND hash again, on the cache as it is at THAT moment. `finhEffects` above is
+the composition of the two with nothing in between (`finhEffects_eq_decide_append` in
+Props/C01Window.lean); the split operations below let other operations run in the window. -/
+
+/-- finalizeHandler up to (not including) the call of `finalize`: the item is taken from the
+    channel, the pre-check reads the cached state, `isFileReady` answers (and parks the file
+    through `toWait` when it is not ready). -/
+def finhDecideEffects (s : State) (n : Name) (now : Int) : List Prim :=
+  match s.mem.fq.find? (·.1 == n) with
+  | none => []
+  | some (_, e) =>
+    [Prim.fqDel n] ++
+    (if stateOf s.mem n ≠ some .validated then []
+     else match isFileReady s n e now with
+       | .yes => []
+       | .park timer e' =>
+         [Prim.timerDel n] ++ (if timer then [Prim.timerSet n] else []) ++ [Prim.waitAdd e'.prev n e'])
+
+/-- the item the handler holds after the decision phase when `isFileReady` answered true: the
+    argument of the call `s.finalize(f)` that follows (hook point `stage.finh.ready`). -/
+def finhPending (s : State) (n : Name) (now : Int) : Option Entry :=
+  match s.mem.fq.find? (·.1 == n) with
+  | none => none
+  | some (_, e) =>
+    if stateOf s.mem n ≠ some .validated then none
+    else match isFileReady s n e now with
+      | .yes => some e
+      | .park .. => none
+
+/-- the locked phase: `finalize(f)` for the held item `e`, computed on the state in which the
+    file lock is taken (which is not the state of the decision when something ran in between). -/
+def finhDoEffects (s : State) (n : Name) (e : Entry) (now : Int) : List Prim :=
+  finalizeEffects s n e now
+
 def timerEffects (s : State) (n : Name) : List Prim :=
   if s.mem.timers.contains n then
     match s.mem.wait.find? (fun w => w.2.1 == n) with
@@ -289,7 +328,11 @@ def recoverEffects (H : Body → String) (s : State) (now : Int) (names : List N
   p1 ++ p2 ++ r4.2 ++ [Prim.setReady true]
 
 /-- cleanStrays(24h) after `fix:` (the companion is read through its own path): the decision
-    for one `<n>.part`: (remove the partial, remove the companion). -/
+    for one `<n>.part`: (remove the partial, remove the companion). After `fix:` "the stray
+    cleaner removed the partial of a retransmission of a file that failed validation" the cache
+    branch is taken only in the states in which a validated copy exists (`fileState >
+    stateReceived && fileState != stateFailed`: validated 1, finalized 3, logged 4); state
+    failed (2) goes to the receive-log look-up like received (0) and unknown (-1). -/
 def cleanDecision (s : State) (now : Int) (n : Name) : Bool × Bool :=
   match s.disk.part n with
   | none => (false, false)
@@ -300,7 +343,7 @@ def cleanDecision (s : State) (now : Int) (n : Name) : Bool × Bool :=
       let comp := s.disk.cmp n
       let st := stateNum s.mem n
       let fileHash := match s.mem.cache n with | some e => e.hash | none => ""
-      if st > 0 then
+      if st > 0 ∧ st ≠ 2 then
         let del := (match comp with | none => true | some c => decide (c.hash = fileHash))
         (del, del && comp.isSome && decide (st = 4))
       else
